@@ -275,3 +275,52 @@ def check_guarded(F, rep, R, cg, bodies):
             rep.check(flows, "C20-R6", "%s:%s-propagated" % (fn, (t.get("f") or t["tf"]).split("::")[-1]),
                       "the result of %s (line %d) is not propagated with `?`: a missing include would not fail the load" % (t.get("f") or t["tf"], t["l"]),
                       "%s:%d" % (b.file, t["l"]))
+    run_r7(F, rep)
+
+
+def run_r7(F, rep):
+    """C20-R7: a line closes a code fence iff it uses the opening marker and is at least as long as the opening run (decided over a finite table)"""
+    from lib.facts import find, walk, is_node, path_of, render
+    from lib.minieval import ev, NoEval
+    rep.rule("C20-R7", "is_code_fence_close(line, marker, min_len): over all (line marker, opening marker, run length, opening length) the early `return false` guards reject exactly "
+                       "the lines with another marker or a SHORTER run - a longer run still closes (CommonMark), so text after a fence is never mistaken for fenced text or vice versa")
+    fns = [it for c in ("mech.lib", "mech.bin") for it in F.syn(c) if it["k"] == "fn" and it["name"] == "is_code_fence_close"]
+    if not rep.check(len(fns) >= 1, "C20-R7", "anchor:is_code_fence_close", "is_code_fence_close not found"):
+        return
+    it = fns[0]
+    params = [p[0][1] for p in it["sig"]["inputs"] if is_node(p[0]) and p[0][0] == "pident"]
+    bound = None
+    for st in it["body"]:
+        if st[0] == "let" and st[2] is not None and any(path_of(c[1]) and path_of(c[1]).endswith("code_fence_delimiter") for c in find(st[2], "call")):
+            ids = [p[1] for p in find(st[1], "pident")]
+            if len(ids) == 3:
+                bound = ids
+    if not rep.check(len(params) == 3 and bound is not None, "C20-R7", "anchor:shape", "is_code_fence_close no longer has the (line, marker, min_len) / let Some((marker, count, after)) shape: %s %s" % (params, bound)):
+        return
+    guards = []
+    for st in it["body"]:
+        if st[0] == "expr" and is_node(st[1]) and st[1][0] == "if":
+            n = st[1]
+            rets = [x for s2 in n[2] for x in walk(s2) if x[0] == "ret"]
+            if rets and render(rets[0][1]) == "false":
+                guards.append(n[1])
+    rep.floor("C20-R7", "early-return guards in is_code_fence_close", len(guards), 1)
+    wrong = []
+    n = 0
+    try:
+        for lm in ("`", "~"):
+            for om in ("`", "~"):
+                for cnt in (3, 4, 5):
+                    for ml in (3, 4, 5):
+                        env = {bound[0]: lm, bound[1]: cnt, bound[2]: 0, params[1]: om, params[2]: ml}
+                        rejected = any(bool(ev(g, env)) for g in guards)
+                        expect_reject = (lm != om) or (cnt < ml)
+                        n += 1
+                        if rejected != expect_reject:
+                            wrong.append("line %s x%d against opening %s x%d is %s" % (lm, cnt, om, ml, "rejected" if rejected else "accepted"))
+    except NoEval as ex:
+        rep.note("C20-R7-undecided", "guard not interpretable: %s" % ex)
+        return
+    rep.check(not wrong, "C20-R7", "fence-close-table" if not wrong else "fence-close-table:%d-of-%d-wrong" % (len(wrong), n),
+              "is_code_fence_close decides %d of %d (marker, length) combinations wrongly, e.g. %s: a fence closes early or never, so include tokens inside code are expanded or tokens after the fence are left alone" % (len(wrong), n, "; ".join(wrong[:3])),
+              "is_code_fence_close (src/mechfs.rs)", sample={"combinations": n, "guards": [render(g) for g in guards]})
